@@ -54,15 +54,15 @@ BOUNDS = {
               "leaves, multisets of pairwise distinct sizes), families graded and onepair, sorted plate order; "
               "everywhere else (and n=5) the default answer plus the fully reversed triple order",
               "smallest_shape_product": "means {-1,0,2}^3 x variances {1e-3,1,1e3}^3 x distances {0,1,3}^3 = 19683",
-              "value_families": 7, "max_combos": "C(n,3) and 5000 (both >= C(n,3))", "distance_factor": 1.0,
-              "sparse_large_probe": "one call with 20 plates (1..400 experiments) x 16 posterior samples (560 triples), all four entry points"},
+              "value_families": 8, "max_combos": "C(n,3) and 5000 (both >= C(n,3))", "distance_factor": 1.0,
+              "sparse_large_probe": "one call with 20 plates (1..400 experiments) x 16 posterior samples (560 triples), all four entry points; 65 / 70 / 130 / 300 plates of 1..8 experiments in one call"},
     "thorough": {"n_thetas": [3, 4, 5, 6, 7], "plate_sizes": [1, 2, 3, 4], "max_plates": 4, "plate_orders": "all k!",
                  "relabellings": "all n! for n<=5; identity, reversal, rotation, one swap for n=6,7",
                  "experiment_orders": "full product over plates when <= 576, otherwise every order of one plate at a "
                  "time with the others unpermuted",
                  "max_chunk": [1, 2, 3, 50], "rng_tree": "as quick, and the scorer 2-call tree on every multiset with <= 3 plates; "
                  "n>=5: default + fully reversed triple order",
-                 "smallest_shape_product": "19683 cases x 2 wrappers", "value_families": 7,
+                 "smallest_shape_product": "19683 cases x 2 wrappers", "value_families": 8,
                  "max_combos": "C(n,3) and 5000", "distance_factor": 1.0, "sparse_large_probe": "as quick"},
 }
 ASSUMPTIONS = [
@@ -88,7 +88,7 @@ ASSUMPTIONS = [
 RTOL = 1e-9
 ATOL = 1e-9
 _MEASURE = None  # offline only: set to {} to record the largest discrepancy per family (never decides a verdict)
-FAMILIES = ["graded", "extreme", "equalmeans", "zerodist", "onepair", "hugegap", "offset"]
+FAMILIES = ["graded", "extreme", "equalmeans", "zerodist", "onepair", "hugegap", "offset", "intmeans"]
 ENTRIES = ["hetero", "homo", "kernel", "scorer"]
 
 
@@ -156,6 +156,9 @@ def family_plate(fam, n, p, n_exp):
         # formed as a product over experiments leaves the double range, a sum of logs does not
         base = {"large-hi": (1e3, 3e2), "large-lo": (1e-3, 3e-3), "large-mixed": (1e3, 1e-3)}[fam]
         v = [[base[(t + e) % 2] * (1.0 + 0.01 * t + 0.001 * e) for e in range(n_exp)] for t in range(n)]
+    elif fam == "intmeans":
+        # integer-valued means handed over as an int64 array (counts, rounded read-outs); distances stay fractional
+        m = [[int((3 * t + 2 * e + p) % 7) - 3 for e in range(n_exp)] for t in range(n)]
     elif fam == "offset":
         # all means share a huge common offset (1e6 .. 1e8), the differences between posterior samples stay of order 0.1-1: the
         # estimator only ever uses differences of means, which are exact for such inputs; a rewrite through moments is not
@@ -290,7 +293,7 @@ def execute(case, chooser):
     order = case["order"]
     rng = ScriptedGenerator(chooser)
     D = np.array(case["D"], dtype=float)
-    ms = [np.array(case["means"][p], dtype=float) for p in order]
+    ms = [np.array(case["means"][p], dtype=np.int64 if case.get("family") == "intmeans" else float) for p in order]
     vs = [np.array(case["variances"][p], dtype=float) for p in order]
     if entry == "hetero":
         out = G.dbal_fast_gaussian_scoring_heteroscedastic(ms, vs, D, rng, max_combos=case["max_combos"])
@@ -437,6 +440,8 @@ def plan(tier, seed):
         for n in (3, 4):
             items.append({"kind": "large", "n": n, "family": fam})
     items.append({"kind": "bigbatch", "n": 16, "family": "graded"})
+    for plates in (65, 70, 130, 300):
+        items.append({"kind": "manyplates", "n": 4, "family": "graded", "plates": plates})
     for n in tp["ns"][:3]:
         items.append({"kind": "scorer-reuse", "n": n})
     for n in tp["ns"]:
@@ -525,6 +530,17 @@ def run_item(item, col, tier):
                     case = base.case(entry, order=order)
                     check_case(case, col, Chooser(), base.expected(entry), _dims(base, order) | {"large-plate"})
         col.states += 16
+        return
+    if kind == "manyplates":
+        # sparse probe: more plates in one call than any enumerated case (block-wise processing of the plate axis), sizes in
+        # an order that is neither sorted nor its own inverse permutation, with ties
+        sizes = [((j * 7) % 5) + 1 + (3 if j % 11 == 0 else 0) for j in range(item["plates"])]
+        base = Base(item["n"], item["family"], sizes)
+        for entry in ENTRIES:
+            case = base.case(entry, max_chunk=50)
+            case["__item__"] = item
+            check_case(case, col, Chooser(), base.expected(entry), _dims(base, case["order"]) | {"many-plates"})
+            col.states += 1
         return
     if kind == "bigbatch":
         # ONE sparse probe far outside the enumerated sizes: 20 plates (one of 400 experiments) x 560 triples in one call, so
